@@ -353,7 +353,7 @@ class Run:
                     return delayed(task)(i, s.c)
 
             ticks = -1 if cfg["timeout"] is None else int(round(cfg["timeout"] / 0.01))
-            R.ev(ev="CallStart", c=callno, n=n, mode=MODES[cfg["mode"]], nj=nj, maxb=maxb, pre=pre,
+            R.ev(ev="CallStart", legacy=not cfg["rc"], c=callno, n=n, mode=MODES[cfg["mode"]], nj=nj, maxb=maxb, pre=pre,
                  bound=pre + 2 * nj * maxb, slack=1, ticks=ticks, serial=not cfg["inline"])
             idle[0] = 0
             kind = None; ei = -1
